@@ -6,6 +6,8 @@ Rec == ndJsonDeserialize(IOEnv.TRACE)
 VARIABLES l, done
 Init == l \in 1..Len(Rec) /\ done = 0
 Once == done = 0 /\ done' = 1 /\ l' = l
+\* the driver process was killed by the scenario (abort, stack overflow) or made no progress (hang)
+Died(e) == e.k \in {"hang", "abort"}
 Report(tag, why) == PrintT("@@" \o tag \o "|" \o ToString(l) \o "|" \o why)
 
 \* e = [text, zone, res, wire, rk (result of giving the name to a record: ok/err/panic/none), rb (name() afterwards)]
@@ -19,5 +21,5 @@ Fact(e) == IF MustAccept(e.text, e.zone) THEN "must-accept" ELSE IF MustReject(e
 C14(e) == LET w == C14Why(e) IN
           /\ PrintT("@@FACT|" \o ToString(l) \o "|" \o Fact(e) \o (IF e.res = "ok" /\ e.rk = "ok" /\ Len(e.text) > 0 THEN "+readback" ELSE ""))
           /\ (IF w = "" THEN TRUE ELSE Report("VIOLATION-C14", w))
-NextC14 == Once /\ C14(Rec[l])
+NextC14 == Once /\ (IF Died(Rec[l]) THEN Report("VIOLATION-C14", "the library " \o Rec[l].k \o "s") ELSE C14(Rec[l]))
 ====
